@@ -39,6 +39,9 @@ FORMATS = {
     "const_optim": ("model_{epoch:03d}.pt", "optim.pt"),
     "metric": ("model_{val_met:.3f}.pt", "optim_{val_met:.3f}.pt"),
     "metric_model": ("m_{val_met:.3f}_{train_met:.1f}.pt", "optim_{epoch:03d}.pt"),
+    # names with a directory part, model and optimizer in directories of their own: each pipeline of the save
+    # has to make its own directory (and a temp file must live next to its destination for the rename)
+    "subdirs": ("m/{epoch}.pt", "o/e{epoch:02d}.pt"),
 }
 MAX_OPS = 15  # 8 (save) + 3 (history: open, header line, data row) + at most 4 removals
 
@@ -131,26 +134,6 @@ def rank_table(case):
     return rk, [[rk[x], rk[R.recorded_value(x)]] for x in order]
 
 
-def norm_trace(tr, sort_removes):
-    """temp ids -> order of first appearance; trailing removals sorted (their order is unspecified)."""
-    ids = {}
-    out = []
-    for op in tr:
-        op = list(op)
-        for i, x in enumerate(op[:-1]):
-            if x == "tmp":
-                op[i + 1] = ids.setdefault(op[i + 1], len(ids))
-        if op[0] == "mktemp":
-            op[1] = ids.setdefault(op[1], len(ids))
-        out.append(op)
-    if sort_removes:
-        j = len(out)
-        while j > 0 and out[j - 1][0] == "remove":
-            j -= 1
-        out = out[:j] + sorted(out[j:])
-    return out
-
-
 def norm_content(c, tab=None):
     """A file's content as the model describes it: ["model", w] / ["optim", tag, lr]. Implementation side:
     the digest of the full state dict is dropped; model side (`tab` given): the learning-rate id becomes
@@ -176,6 +159,13 @@ def norm_state(st, tab):
     if isinstance(st, list) and len(st) == 3 and isinstance(st[2], int) and 0 <= st[2] < len(tab):
         return [st[0], st[1], tab[st[2]]]
     return st
+
+
+def leak_predicted(dm, da, tab):
+    """The model's disk `dm` after a completed update is the implementation's `da`: same checkpoint files with the
+    same content, same history, the same files that are no checkpoint (by content, as a multiset; the model
+    follows the temp files an implementation removes again while an interrupt unwinds)."""
+    return norm_disk(da) == norm_disk(dm, tab)
 
 
 class C16(PropertyCheck):
@@ -400,6 +390,18 @@ class C16(PropertyCheck):
         rm = {e - 1} | ({lb} if lb != cb else set())
         return 10 + hdr + 2 * len([j for j in rm if j >= 1])
 
+    def calls_of(self, case, e):
+        """Kinds of the file-system events the update of epoch e makes in the uninterrupted run of the
+        implementation UNDER TEST (c16_fs events, no-op ones included; None: that run did not complete the
+        update). Crash points are enumerated from what the implementation really does, not from a count the
+        harness believes in."""
+        evs = self.reference(case).get("events", [])
+        return evs[e - 1] if 0 <= e - 1 < len(evs) else None
+
+    def ncalls(self, case, e):
+        evs = self.calls_of(case, e)
+        return len(evs) if evs is not None else self.predicted_calls(case, e)
+
     @staticmethod
     def first_refusal(case):
         """First epoch whose update raises 'would overwrite best ... checkpoint' in an uninterrupted run
@@ -416,10 +418,13 @@ class C16(PropertyCheck):
                 return e
         return None
 
-    @classmethod
-    def torn_points(cls, case, e):
-        """Calls that can be executed half-way: the two torch.save and the write of the data row."""
-        if cls.collides(case):      # the row may come first: row at 1 (2 behind a header), saves shifted by it
+    def torn_points(self, case, e):
+        """Events that can be executed half-way: every write of bytes to a file (the state dicts, the data row of
+        the history; the header line is atomic, see the design note)."""
+        evs = self.calls_of(case, e)
+        if evs is not None:
+            return tuple(i for i, k in enumerate(evs) if k == "write")
+        if self.collides(case):      # the row may come first: row at 1 (2 behind a header), saves shifted by it
             return (2, 5, 8, 10) if e == 1 else (1, 2, 4, 5, 7, 9)
         return (2, 5, 10) if e == 1 else (2, 5, 9)
 
@@ -451,7 +456,7 @@ class C16(PropertyCheck):
                     if e == stop:       # one schedule confirms that nothing of this update can be interrupted
                         yield dict(b, sched=[[e, 0, False]])
                     continue
-                for k in range(min(MAX_OPS, self.predicted_calls(b, e) + 1) + 1):
+                for k in range(self.ncalls(b, e) + 2):
                     yield dict(b, sched=[[e, k, False]])
                     if soft:
                         yield dict(b, sched=[[e, k, False, True]])
@@ -467,8 +472,8 @@ class C16(PropertyCheck):
             stop = self.first_refusal(b)
             if stop is not None:
                 n = stop - 1
-            allp = [[e1, k1, e2, k2] for e1 in range(1, n + 1) for k1 in range(1, self.predicted_calls(b, e1) + 1)
-                    for e2 in range(e1, n + 1) for k2 in range(0, MAX_OPS)]
+            allp = [[e1, k1, e2, k2] for e1 in range(1, n + 1) for k1 in range(1, self.ncalls(b, e1) + 1)
+                    for e2 in range(e1, n + 1) for k2 in range(0, max(MAX_OPS, self.ncalls(b, e2) + 1))]
             if len(allp) > per:
                 # prefer the second crash in the update that is repeated or the next one
                 near = [x for x in allp if x[2] - x[0] <= 1]
@@ -500,7 +505,8 @@ class C16(PropertyCheck):
             with R.Workspace() as ws:
                 ups = []
                 s = R.session(dict(case, sched=[]), ws, None, record=ups)
-                ref = {"csv": R.read_csv(ws), "mem": [], "ids": [], "lrs": [], "digs": []}
+                ref = {"csv": R.read_csv(ws), "mem": [], "ids": [], "lrs": [], "digs": [],
+                       "events": [u["trace"]["events"] for u in ups]}
             if "start_full" in s and s.get("start_epoch") == 0:
                 ref["mem"] = [s.pop("start_full")] + [u.pop("mem_full") for u in ups]
                 ref["ids"] = [s["start_state"]] + [u["mem"] for u in ups]
@@ -548,19 +554,19 @@ class C16(PropertyCheck):
             ep = s["update_error"][0]
         if status == "completed":
             ep = s.get("end_epoch")
+        tr = s.get("trace") or {}
         o = {"status": status, "start": s.get("start_epoch"), "epoch": ep,
-             "trace": s.get("trace", []) if status == "crashed" else [],
+             "trace": tr.get("ops", []) if status == "crashed" else [],
+             "torn": tr.get("torn") if status == "crashed" else None,
+             "events": tr.get("events", []) if status == "crashed" else [],
+             "after": tr.get("after", []) if status == "crashed" else [],
              "updates": ups, "disk": disk, "rec": rec, "final_state": s.get("final_state"),
              "start_state": s.get("start_state"), "start_diff": s.get("start_diff"),
              "final_diff": s.get("final_diff")}
         if s.get("masked_by"):
             o["masked_by"] = s["masked_by"]
-        if s.get("unexpected_mutators"):
-            o["unexpected"] = s["unexpected_mutators"]
         if s.get("idle_ops"):
             o["idle_ops"] = s["idle_ops"]
-        if s.get("after_ops"):
-            o["after_ops"] = s["after_ops"]
         return o
 
     def run_impl(self, case):
@@ -591,13 +597,27 @@ class C16(PropertyCheck):
         n = len(case["vals"])
         mn, on = R.names(case, n)
         obs = self._impl.get(self.key(case))
+        # What the model is told about a session: WHETHER the implementation was killed in it and, if so, in
+        # which update and after which file-system CHANGES (effective ones, in the model's vocabulary, in the
+        # implementation's order) — never a call index: how many calls an update makes, through which API, is
+        # the implementation's business. The model matches the changes against the orders it admits.
+        def hint(ops):
+            return None if any("?" in [x for x in op if isinstance(x, str)] for op in ops) else ops
+
+        def sess_in(o, crash):
+            d = {"crash": None, "updates": []}
+            if o is None:
+                return d
+            d["updates"] = [{"epoch": u["epoch"], "ops": hint(u["trace"]["ops"])} for u in o["updates"]]
+            if crash and o["status"] == "crashed":
+                d["crash"] = {"epoch": o["epoch"], "ops": hint(o["trace"]), "n_ops": len(o["trace"]),
+                              "torn": o.get("torn"), "after": hint(o.get("after") or [])}
+            return d
         sched = []
         for i, cr in enumerate(case["sched"]):
-            e, k, torn = cr[0], cr[1], cr[2]       # cr[3] (soft interrupt) changes nothing for the model
-            rm = []
-            if obs is not None and i < len(obs["sessions"]):
-                rm = [op[1:] for op in obs["sessions"][i]["trace"] if op[0] == "remove"]
-            sched.append({"epoch": e, "k": k, "torn": bool(torn), "rm": rm})
+            o = obs["sessions"][i] if obs is not None and i < len(obs["sessions"]) else None
+            sched.append(sess_in(o, True))
+        final = sess_in(obs["final"] if obs is not None else None, False)
         # metrics go to the model as order-preserving integers (ranks), RAW, together with the rounding of the
         # history file's format as a table rank(x) -> rank(recorded(x)): the model's controller compares the
         # values it has cached (recorded ones for the epochs it read from the file, raw ones for its own), rounded
@@ -608,7 +628,7 @@ class C16(PropertyCheck):
             "metrics": [[rk.get(R.mval(v[0])), rk.get(R.mval(v[1]))] for v in case["vals"]],
             "rounding": {"file": tab, "mem": tab},
             "best_is_train": bool(case.get("best_is_train", False)), "red": self.lr_plan(case)[2],
-            "sched": sched}}
+            "sched": sched, "final": final}}
 
     @staticmethod
     def _cmp_session(tag, a, b, out, tab):
@@ -621,23 +641,24 @@ class C16(PropertyCheck):
             out.append(f"{tag}: start epoch impl={a['start']} model={b['start']}")
         if a["status"] != "stuck_load" and a["epoch"] != b["epoch"]:
             out.append(f"{tag}: epoch impl={a['epoch']} model={b['epoch']}")
-        if not b.get("hint_ok", True):
-            out.append(f"{tag}: the implementation removed a file outside the model's clean-up set")
-        ta, tb = norm_trace(a["trace"], False), norm_trace(b["trace"], False)
-        if ta != tb:
-            out.append(f"{tag}: calls before the crash impl={ta} model={tb}")
+        if a["status"] == "crashed" and not b.get("trace_ok", True):
+            out.append(f"{tag}: the file-system changes the killed update of epoch {a['epoch']} made, "
+                       f"{a['trace']}{' + half of ' + str(a['torn']) if a.get('torn') else ''}, are not the beginning "
+                       f"of any order the model admits (any interleaving of the two temp-file pipelines, then the "
+                       f"history lines, then the clean-up in any order — or history first when the names collide); "
+                       f"the model's own order up to there: {b['trace']}")
         if len(a["updates"]) != len(b["updates"]):
             out.append(f"{tag}: completed updates impl={len(a['updates'])} model={len(b['updates'])}")
         for ua, ub in zip(a["updates"], b["updates"]):
-            xa, xb = norm_trace(ua["trace"], True), norm_trace(ub["trace"], True)
-            if ua["epoch"] != ub["epoch"] or xa != xb:
-                out.append(f"{tag}: update {ua['epoch']}: calls impl={xa} model={xb}")
+            if ua["epoch"] != ub["epoch"] or not ub.get("trace_ok", True):
+                out.append(f"{tag}: update {ua['epoch']}: file-system changes impl={ua['trace']['ops']} are not an "
+                           f"order the model admits; the model's own order: {ub['trace']}")
             if norm_disk(ua["disk"]) != norm_disk(ub["disk"], tab):
                 out.append(f"{tag}: disk after update {ua['epoch']} impl={norm_disk(ua['disk'])} "
                            f"model={norm_disk(ub['disk'], tab)}")
         da, db = norm_disk(a["disk"]), norm_disk(b["disk"], tab)
         if a["disk"].get("other"):
-            out.append(f"{tag}: unclassified files {a['disk']['other']}")
+            out.append(f"{tag}: directories inside the state directory {a['disk']['other']}")
         if da != db:
             out.append(f"{tag}: disk impl={da} model={db}")
         ra, rb = a["rec"], b["rec"]
@@ -653,14 +674,13 @@ class C16(PropertyCheck):
                 va = None if ra[nm] and ra[nm][0] == "error" else ra[nm]
                 if va != norm_state(rb[nm], tab):
                     out.append(f"{tag}: {nm} impl={ra[nm]} model={norm_state(rb[nm], tab)}")
-        if a.get("unexpected"):
-            out.append(f"{tag}: mutating entry points unknown to the model: {a['unexpected']}")
         if a.get("idle_ops"):
-            out.append(f"{tag}: mutating calls outside update_for_epoch (constructor / add_entry / load), the "
+            out.append(f"{tag}: file-system changes outside update_for_epoch (constructor / add_entry / load), the "
                        f"model has none: {a['idle_ops']}")
-        if a.get("after_ops"):
-            out.append(f"{tag}: mutating calls made while the interrupt unwinds, the model has none: "
-                       f"{a['after_ops']}")
+        bad_after = [op for op in a.get("after") or [] if op[:2] != ["remove", "tmp"]]
+        if bad_after:
+            out.append(f"{tag}: file-system changes made while the interrupt unwinds other than the removal of the "
+                       f"killed update's own temp files (the model admits nothing else): {bad_after}")
 
     def compare(self, case, impl, model):
         if "error" in impl:
@@ -767,6 +787,10 @@ class C16(PropertyCheck):
             return "x"
 
         crashed_before = False
+        # names of the files in the state directory that are no checkpoint of any epoch and appeared during an
+        # update that was killed (whatever API created them): the only files the known finding "temp files leak
+        # after a crash" is about
+        leftover, prev_names = set(), set()
         for idx, (tag, s) in enumerate(all_sessions):
             ms_ = model_session(idx)
             # ---- exactness / loadability after every COMPLETED update of this process
@@ -792,14 +816,19 @@ class C16(PropertyCheck):
                     if extra or tmps or u["disk"]["other"]:
                         recorded_keys = {("model", mk[j]) for j in range(1, k + 1)} | {("optim", ok[j]) for j in range(1, k + 1)}
                         superseded = all(p in recorded_keys for p in extra)
+                        from_crash = all(nm in leftover for nm in u["disk"]["tmp_names"])
                         mu = None
                         if ms_ is not None:
                             mu = next((x for x in ms_["updates"] if x["epoch"] == k), None)
-                        predicted = mu is not None and norm_disk(mu["disk"], tab) == norm_disk(u["disk"])
-                        sig = (LEAK if (crashed_before and superseded and not u["disk"]["other"] and predicted)
-                               else "C16.exact.extra")
+                        predicted = mu is not None and leak_predicted(mu["disk"], u["disk"], tab)
+                        sig = (LEAK if (crashed_before and superseded and from_crash and not u["disk"]["other"]
+                                        and predicted) else "C16.exact.extra")
+                        fresh = [nm for nm in u["disk"]["tmp_names"] if nm not in leftover]
                         add(f"{tag}: after the completed update of epoch {k} the state directory holds more than the "
-                            f"last ({k}) and best ({b}) epochs' files: extra={extra} temp files={len(tmps)}", sig)
+                            f"last ({k}) and best ({b}) epochs' files: extra={extra} files that are no checkpoint="
+                            f"{len(tmps)}" + (f", of which {fresh} did not come from an interrupted update" if fresh else ""),
+                            sig)
+                prev_names = set(u["disk"]["tmp_names"])
                 if not keep and injective:
                     bad = [j for j in range(1, k + 1)
                            if not holds(files.get(("model", mk[j])), want_files(j)[0])
@@ -891,6 +920,8 @@ class C16(PropertyCheck):
                                 wsig(kind, idx) or "C16.recover.load_best_default")
             if st == "crashed":
                 crashed_before = True
+                leftover |= set(s["disk"]["tmp_names"]) - prev_names
+            prev_names = set(s["disk"]["tmp_names"])
         fin = impl["final"]
         if fin["status"] == "completed":
             if fin["epoch"] != n:
@@ -1012,7 +1043,7 @@ class C16(PropertyCheck):
     def nontrivial(self, case, impl):
         if "error" in impl:
             return False
-        return any(s["status"] == "crashed" and len(s["trace"]) >= 1 for s in impl["sessions"])
+        return any(s["status"] == "crashed" and len(s["events"]) >= 1 for s in impl["sessions"])
 
     def tags(self, case, impl):
         t = ["keep_lb" if case["keep_lb"] else "keep_all", f"crashes={len(case['sched'])}",
@@ -1070,7 +1101,12 @@ class C16(PropertyCheck):
                 t.append("best_epoch_is_lr_reduction_epoch")
         for s in impl["sessions"]:
             if s["status"] == "crashed":
-                t.append(f"crash_after_calls={len(s['trace'])}")
+                if s.get("after"):
+                    t.append("temp_files_removed_while_the_interrupt_unwinds")
+                t.append(f"crash_after_events={len(s['events'])}")
+                t.append(f"crash_after_changes={len(s['trace'])}")
+                if s["events"] and s["events"][-1] in R.NOOP_EVENTS:
+                    t.append("crash_right_after_a_no_op_event")
                 if any(x[2] == ["torn"] for x in s["disk"]["files"]) or ["torn"] in s["disk"]["tmps"]:
                     t.append("torn_write")
                 if "torn" in (s["disk"]["csv"] or []):
@@ -1083,10 +1119,14 @@ class C16(PropertyCheck):
             if s["status"] == "refused":
                 t.append("refused_overwrite_best")
             for u in s["updates"]:
-                nrm = sum(1 for op in u["trace"] if op[0] == "remove")
-                first = u["trace"][0][0] if u["trace"] else "?"
-                hdr = any(op[:2] == ["hwrite", "header"] for op in u["trace"])
-                t.append(f"branch:{'info_first' if first == 'open_a' else 'save_first'}:rm{nrm}{':hdr' if hdr else ''}")
+                ops = u["trace"]["ops"]
+                nrm = sum(1 for op in ops if op[0] == "remove")
+                first = ops[0][0] if ops else "?"
+                hdr = any(op[:2] == ["hwrite", "header"] for op in ops)
+                t.append(f"branch:{'info_first' if first in ('open_a', 'hwrite') else 'save_first'}:rm{nrm}{':hdr' if hdr else ''}")
+                sv = [{"mktemp": "c", "write": "w", "replace": "r"}[op[0]] + str(op[1] if op[0] == "mktemp" else op[2])
+                      for op in ops if op[0] in ("mktemp", "write", "replace") and len(op) > 2 - (op[0] == "mktemp")]
+                t.append("save_order:" + "".join(sv))
         return sorted(set(t))
 
     def shrink(self, case):
